@@ -719,8 +719,11 @@ pub fn generate(s: &mut Session, thorough: bool) -> bool {
             }
             if let Some(f) = first {
                 if !h {
-                    s.push_oracle("no-gap", format!("{what}map {run} {}", if what == "wire" { &a16_list } else { &pwb_list }),
-                        "ok".into(), Some(format!("run {run} has no {what} map although run {f} has one (gap)")));
+                    let list = if what == "wire" { &a16_list } else { &pwb_list };
+                    let cmd = format!("{what}map");
+                    let imp = run_request(&cmd, &[&run.to_string(), list]).unwrap();
+                    s.push_oracle("no-gap", format!("{what}map {run} {list}"), imp,
+                        Some(format!("run {run} has no {what} map although run {f} has one (gap)")));
                 }
             }
         }
@@ -784,13 +787,15 @@ pub fn generate(s: &mut Session, thorough: bool) -> bool {
             fail = Some(format!("run {run}: installed boards x chips x channels -> pads is not a bijection onto 18432 ({n_ok} ok, {} distinct)", all.len()));
         }
         if let Some(f) = fail {
-            s.push_oracle("pad-bijection", format!("pwbmap {run} {pwb_list}"), "ok".into(), Some(f));
+            let imp = run_request("pwbmap", &[&run.to_string(), &pwb_list]).unwrap();
+            s.push_oracle("pad-bijection", format!("pwbmap {run} {pwb_list}"), imp, Some(f));
         }
     }
     // simulation == 5000 for pads
     for b in &pwb {
         if padmap_impl(u32::MAX, b) != padmap_impl(5000, b) {
-            s.push_oracle("sim-eq-5000", format!("padmap 4294967295 {b}"), "ok".into(),
+            let imp = run_request("padmap", &["4294967295", b]).unwrap();
+            s.push_oracle("sim-eq-5000", format!("padmap 4294967295 {b}"), imp,
                 Some("simulation run number does not map pads like run 5000".into()));
         }
     }
